@@ -24,6 +24,6 @@ Extraction "model.ml"
   dom_div dom_divin dom_mod dom_modin dom_divmod dom_divexact dom_quo dom_quo_floor dom_rem
   dom_quoin dom_remin dom_quoRem dom_isDivisor
   forms form_rows
-  cast_i64_u64 cast_u64_i64 cast_i64_i32 cast_i64_i16 cast_abs64 cast_neg64 cast_i64_dbl cast_dbl_u64
+  cast_i64_u64 cast_u64_i64 cast_i64_i32 cast_i64_i16 cast_abs64 cast_neg64 cast_i64_dbl cast_mpz_dbl cast_dbl_u64
   cfg_sizeof_long cfg_limb_bits cfg_i64_min cfg_i64_max cfg_u64_max cfg_i32_min cfg_u32_max cfg_i16_min cfg_u16_max cfg_dbl_mant_dig.
 Cd "..".
